@@ -38,7 +38,8 @@ def plan(tier, seed):
         require=['large_files_loaded', 'files_loaded', 'roots_checked', 'varinfo_0', 'varinfo_1',
                  'varinfo_3', 'with_orderedvarnames',
                  'without_orderedvarnames', 'permid_gaps',
-                 'numbering_not_by_level', 'complemented_roots'],
+                 'numbering_not_by_level', 'complemented_roots',
+                 'formulas_parsed_between_loads'],
         assumptions=['terminal node has id 1; then-edges are regular, '
                      'else-edges may be complemented (CUDD convention)',
                      '.orderedvarnames lists the variables by level; '
@@ -231,7 +232,14 @@ def files(ctx, spec):
     rng = ctx.rng('files', spec['sub'])
     path = f'f{os.getpid()}.dddmp'
     bad = 0
+    # the formula parser of the package (another PLY lexer and parser, built
+    # at the first `add_expr` of the process) comes into being before the
+    # first load or between two loads, and is used again now and then
+    first_formula = 0 if spec['sub'] % 3 == 0 else rng.randint(1, 4)
     for it in range(spec['count']):
+        if it == first_formula or (it > first_formula and
+                                   rng.random() < 0.05):
+            _other_parser(ctx, rng)
         text, tabs, sp, meta = make_file(rng, path)
         # the generator and the independent reader of the text agree
         rt, sp2 = eval_file(text)
@@ -257,6 +265,18 @@ def files(ctx, spec):
                 break
     if os.path.exists(path):
         os.remove(path)
+
+
+def _other_parser(ctx, rng):
+    import dd.bdd as _b
+    import dd.autoref as _a
+    m = _a.BDD() if rng.random() < 0.5 else _b.BDD()
+    m.declare('p', 'q', 'r')
+    u = m.add_expr(rng.choice((r'p /\ ~ q', r'\E p: (p => r) | q',
+                               r'ite(p, q, ~ r)')))
+    m.to_expr(u)
+    del u
+    ctx.counters['formulas_parsed_between_loads'] += 1
 
 
 def one(ctx, _d, path, tabs, sp, meta, info):
